@@ -6,11 +6,7 @@ import SJ.Props.C04
 #print axioms SJ.Props.C04.c04_value_nofloat
 #print axioms SJ.Props.C04.c04_value_ap
 #print axioms SJ.Props.C04.c04_value_all_floats
-#print axioms SJ.Props.C04.c04_wf_of_parse_partial
-#print axioms SJ.Props.C04.c04_wf_of_parse_finite
-#print axioms SJ.Props.C04.c04_wf_of_parse_ap
-#print axioms SJ.Props.C04.c04_reparse_partial
-#print axioms SJ.Props.C04.c04_wf_of_parse_str_partial
-#print axioms SJ.Props.C04.c04_wf_of_parse_str_finite
-#print axioms SJ.Props.C04.c04_wf_of_parse_str_ap
-#print axioms SJ.Props.C04.c04_reparse_str_partial
+#print axioms SJ.Props.C04.c04_parsed_floats_finite
+#print axioms SJ.Props.C04.c04_wf_of_parse
+#print axioms SJ.Props.C04.c04_reparse
+#print axioms SJ.Props.C04.c04_reparse_ap
